@@ -47,24 +47,27 @@ type AttrSpec struct {
 }
 
 type AssertionSpec struct {
-	ID           string
-	Issuer       *string
-	NameID       *string
-	NameIDRaw    string // optional raw XML for the NameID content (comments / CDATA / char refs); decodes to *NameID
-	Method       string
-	Recipient    string
-	NOA          string // SubjectConfirmationData NotOnOrAfter (rendered)
-	NB, CondNOA  string // Conditions bounds (rendered)
-	Audiences    [][]string
-	OneTimeUse   bool
-	Proxy        *struct{ Count string; Audiences []string }
-	Attrs        []AttrSpec
-	NoAttrStmt   bool
-	SessionIndex string
-	AuthnInstant string
-	SessionNOA   string
+	ID          string
+	Issuer      *string
+	NameID      *string
+	NameIDRaw   string // optional raw XML for the NameID content (comments / CDATA / char refs); decodes to *NameID
+	Method      string
+	Recipient   string
+	NOA         string // SubjectConfirmationData NotOnOrAfter (rendered)
+	NB, CondNOA string // Conditions bounds (rendered)
+	Audiences   [][]string
+	OneTimeUse  bool
+	Proxy       *struct {
+		Count     string
+		Audiences []string
+	}
+	Attrs                                   []AttrSpec
+	NoAttrStmt                              bool
+	SessionIndex                            string
+	AuthnInstant                            string
+	SessionNOA                              string
 	NoSubject, NoConf, NoData, NoConditions bool
-	UseCDATA     bool // serialise NameID / attribute values as CDATA sections (the IdP signs that layout)
+	UseCDATA                                bool // serialise NameID / attribute values as CDATA sections (the IdP signs that layout)
 	// bookkeeping
 	Relocated     bool      // an attacker edit moved the genuine element away from being a direct child of the root
 	SignedBy      *SignOpts // assertion-level signature, if any
@@ -74,16 +77,16 @@ type AssertionSpec struct {
 
 type ResponseSpec struct {
 	ID, InResponseTo, Destination, Version string
-	Issuer     *string
-	StatusCode *string // nil: no Status element; "": Status without StatusCode? see NoStatusCode
-	NoStatusCode bool
-	Assertions []*AssertionSpec
-	SignedBy   *SignOpts
-	Style      nsStyle
-	Pretty     bool
-	XMLDecl    bool
-	Kind       string // "Response" | "LogoutResponse" | "LogoutRequest"
-	NameID     *string // LogoutRequest
+	Issuer                                 *string
+	StatusCode                             *string // nil: no Status element; "": Status without StatusCode? see NoStatusCode
+	NoStatusCode                           bool
+	Assertions                             []*AssertionSpec
+	SignedBy                               *SignOpts
+	Style                                  nsStyle
+	Pretty                                 bool
+	XMLDecl                                bool
+	Kind                                   string  // "Response" | "LogoutResponse" | "LogoutRequest"
+	NameID                                 *string // LogoutRequest
 }
 
 // text values over the XML repertoire
